@@ -304,8 +304,21 @@ void gvt_msg_drain(void)
 	for(int i = 0; i < 2; ++i) { // flush both gvt phases
 		gvt_timer = 0;       // this satisfies the timer condition
 		VERIF_POINT(VP_DRAIN, 2 + i, 0, 0, 0);
-		while(!gvt_phase_run())
+		// a round is complete when gvt_phase_run() returns its value, but a value of exactly 0 (a message with
+		// timestamp 0 is still pending, e.g. after an early RootsimStop()) is indistinguishable from "not yet":
+		// also detect the completion by the thread joining a round and getting back to the idle phase
+		bool joined = false;
+		while(1) {
+			bool was_idle = thread_phase == thread_phase_idle;
+			if(gvt_phase_run())
+				break;
 			mpi_remote_msg_drain();
+			bool is_idle = thread_phase == thread_phase_idle;
+			if(was_idle && !is_idle)
+				joined = true;
+			else if(joined && is_idle)
+				break;
+		}
 	}
 	VERIF_POINT(VP_DRAIN, 4, 0, 0, 0);
 }
